@@ -446,7 +446,6 @@ func findApps(s, prefix string) []string {
 	}
 }
 
-
 type defAxiom struct {
 	head string
 	vars []string
